@@ -82,6 +82,11 @@ public:
 private:
     struct Session {
         SocketHandle socket{INVALID_SOCKET_HANDLE};
+        // Held while one frame is written: send() may be called for the same peer from several
+        // threads (reader threads answering requests, the tick/control threads broadcasting) and a
+        // frame is written with a loop of ::send calls, so unserialised writers could interleave
+        // their bytes and desynchronise the peer's frame parser.
+        std::mutex send_mutex;
         std::array<std::uint8_t, 32> key{};
         std::string endpoint;
         std::thread reader;
